@@ -188,28 +188,43 @@ structure RawField where
   nested : List (List Char)
   deriving DecidableEq, Repr, Inhabited
 
+/-- `(?P<name> NAME)?` at the start -/
+def scanNameOpt (inBr : Char → Bool) (cs : List Char) : Option (List Char) × List Char :=
+  match scanName inBr cs with
+  | some (nm, r) => (some nm, r)
+  | none => (none, cs)
+
+/-- `(?P<conversion> ! \w+)?` at the start -/
+def scanConv (cs : List Char) : Option (List Char) × List Char :=
+  match cs with
+  | '!' :: r =>
+    match r.takeWhile isWord with
+    | [] => (none, cs)
+    | w => (some ('!' :: w), r.dropWhile isWord)
+  | _ => (none, cs)
+
+/-- `(?P<format> : (?: [^{}] | SIMPLE )* )?` at the start -/
+def scanFmt (cs : List Char) : Option (List Char) × List (List Char) × List Char :=
+  match cs with
+  | ':' :: r =>
+    match scanFormatBody r.length r with
+    | (t, ns, r') => (some (':' :: t), ns, r')
+  | _ => (none, [], cs)
+
 /-- the second alternative of `_field_re` at the start -/
 def scanField : List Char → Option (RawField × List Char)
   | '{' :: r0 =>
-    let (name, r1) := match scanName topBr r0 with
-      | some (nm, r) => (some nm, r)
-      | none => (none, r0)
-    let (conv, r2) := match r1 with
-      | '!' :: r =>
-        match r.takeWhile isWord with
-        | [] => (none, r1)
-        | w => (some ('!' :: w), r.dropWhile isWord)
-      | _ => (none, r1)
-    let (fmt, nested, r3) := match r2 with
-      | ':' :: r =>
-        let (t, ns, r') := scanFormatBody r.length r
-        (some (':' :: t), ns, r')
-      | _ => (none, [], r2)
-    match r3 with
-    | '}' :: rest =>
-      some ({ text := '{' :: (name.getD [] ++ conv.getD [] ++ fmt.getD [] ++ ['}']), name := name, conversion := conv,
-              format := fmt, nested := nested }, rest)
-    | _ => none
+    match scanNameOpt topBr r0 with
+    | (name, r1) =>
+      match scanConv r1 with
+      | (conv, r2) =>
+        match scanFmt r2 with
+        | (fmt, nested, r3) =>
+          match r3 with
+          | '}' :: rest =>
+            some ({ text := '{' :: (name.getD [] ++ conv.getD [] ++ fmt.getD [] ++ ['}']), name := name, conversion := conv,
+                    format := fmt, nested := nested }, rest)
+          | _ => none
   | _ => none
 
 /-- `(?: [^{}] | [{]{2} | [}]{2} )+` at the start: text and rest (`([], cs)` = no match) -/
@@ -242,51 +257,67 @@ def isAlign (c : Char) : Bool := c == '<' || c == '>' || c == '=' || c == '^'
 def isSign (c : Char) : Bool := c == ' ' || c == '+' || c == '-'
 def isAsciiDigit (c : Char) : Bool := '0' ≤ c && c ≤ '9'
 
+/-- `(?: (?P<fill> [^}] )? (?P<align> [<>=^] ) )?` -/
+def sFillAlign : List Char → Option Char × Option Char × List Char
+  | f :: a :: r =>
+    if f ≠ '}' && isAlign a then (some f, some a, r)
+    else if isAlign f then (none, some f, a :: r)
+    else (none, none, f :: a :: r)
+  | [f] => if isAlign f then (none, some f, []) else (none, none, [f])
+  | [] => (none, none, [])
+
+/-- `(?P<sign> [ +-] )?` -/
+def sSign : List Char → Option Char × List Char
+  | c :: r => if isSign c then (some c, r) else (none, c :: r)
+  | [] => (none, [])
+
+/-- `(?P<alt> [#] )?`, `(?P<zero> [0] )?`, `(?P<comma> [,] )?` -/
+def sLit (x : Char) : List Char → Bool × List Char
+  | c :: r => if c = x then (true, r) else (false, c :: r)
+  | [] => (false, [])
+
+/-- `(?P<width> [0-9]+ )?` -/
+def sWidth (cs : List Char) : Option (List Char) × List Char :=
+  match cs.takeWhile isAsciiDigit with
+  | [] => (none, cs)
+  | w => (some w, cs.dropWhile isAsciiDigit)
+
+/-- `(?: [.] (?P<precision> \d+) )?` -/
+def sPrec (cs : List Char) : Option (List Char) × List Char :=
+  match cs with
+  | '.' :: r =>
+    match r.takeWhile isDigit with
+    | [] => (none, cs)
+    | p => (some p, r.dropWhile isDigit)
+  | _ => (none, cs)
+
+/-- `(?P<type> [\w%])?` -/
+def sType : List Char → Option Char × List Char
+  | c :: r => if isWord c || c == '%' then (some c, r) else (none, c :: r)
+  | [] => (none, [])
+
 /-- `_format_spec_re.match(spec)` -/
 def scanSpec (cs : List Char) : Option Spec :=
-  let (fill, align, r1) : Option Char × Option Char × List Char :=
-    match cs with
-    | f :: a :: r =>
-      if f ≠ '}' && isAlign a then (some f, some a, r)
-      else if isAlign f then (none, some f, a :: r)
-      else (none, none, cs)
-    | [f] => if isAlign f then (none, some f, []) else (none, none, cs)
-    | [] => (none, none, [])
-  let (sign, r2) : Option Char × List Char :=
-    match r1 with
-    | c :: r => if isSign c then (some c, r) else (none, r1)
-    | [] => (none, [])
-  let (alt, r3) : Bool × List Char :=
-    match r2 with
-    | '#' :: r => (true, r)
-    | _ => (false, r2)
-  let (zero, r4) : Bool × List Char :=
-    match r3 with
-    | '0' :: r => (true, r)
-    | _ => (false, r3)
-  let (width, r5) : Option (List Char) × List Char :=
-    match r4.takeWhile isAsciiDigit with
-    | [] => (none, r4)
-    | w => (some w, r4.dropWhile isAsciiDigit)
-  let (comma, r6) : Bool × List Char :=
-    match r5 with
-    | ',' :: r => (true, r)
-    | _ => (false, r5)
-  let (prec, r7) : Option (List Char) × List Char :=
-    match r6 with
-    | '.' :: r =>
-      match r.takeWhile isDigit with
-      | [] => (none, r6)
-      | p => (some p, r.dropWhile isDigit)
-    | _ => (none, r6)
-  let (type, r8) : Option Char × List Char :=
-    match r7 with
-    | c :: r => if isWord c || c == '%' then (some c, r) else (none, r7)
-    | [] => (none, [])
-  match r8 with
-  | [] => some { fill := fill, align := align, sign := sign, alt := alt, zero := zero, width := width, comma := comma,
-                 precision := prec, type := type }
-  | _ => none
+  match sFillAlign cs with
+  | (fill, align, r1) =>
+    match sSign r1 with
+    | (sign, r2) =>
+      match sLit '#' r2 with
+      | (alt, r3) =>
+        match sLit '0' r3 with
+        | (zero, r4) =>
+          match sWidth r4 with
+          | (width, r5) =>
+            match sLit ',' r5 with
+            | (comma, r6) =>
+              match sPrec r6 with
+              | (prec, r7) =>
+                match sType r7 with
+                | (type, r8) =>
+                  match r8 with
+                  | [] => some { fill := fill, align := align, sign := sign, alt := alt, zero := zero, width := width,
+                                 comma := comma, precision := prec, type := type }
+                  | _ => none
 
 /-! ### `int()` on a run of decimal digits -/
 
